@@ -388,10 +388,27 @@ func main() {
 		}
 	}
 	// a crash of the code under test is a violation of the property whose run crashed
+	// (its signature names the panic and the two innermost frames of the code under test, so
+	// that a recorded crash is told from any other one)
 	for i, c := range crashes {
 		p := filepath.Join(replayDir, fmt.Sprintf("%s-%d-crash%d.txt", prop, seed, i))
 		_ = os.WriteFile(p, []byte(c), 0o644)
-		confirmed = append(confirmed, violation{Property: prop, Clause: "panic", Signature: "panic in code under test", Detail: firstLine(c), Replay: p})
+		sig := crashSignature(c)
+		listed := false
+		for _, k := range loadKnown() {
+			if k.Property == prop && k.Status != "fixed" && k.Clause == "panic" && sigMatches(k.Signature, sig) {
+				if agg.Known == nil {
+					agg.Known = map[string]int{}
+				}
+				agg.Known[k.Property+"|"+k.Clause+"|"+k.Signature]++
+				listed = true
+				fmt.Fprintf(os.Stderr, "NOTE: a worker process crashed with the recorded finding %q (%s); the runs it had executed and the rest of its share of the run-index range are not part of this batch\n", sig, p)
+				break
+			}
+		}
+		if !listed {
+			confirmed = append(confirmed, violation{Property: prop, Clause: "panic", Signature: sig, Detail: firstLine(c), Replay: p})
+		}
 	}
 
 	writeEvidence(prop, tier, seed, info, &agg, len(fps), wall, len(confirmed), workers, budget)
@@ -460,6 +477,62 @@ func isHarnessPanic(out string) bool {
 		return strings.Contains(l, "zz_verif_") || strings.Contains(l, "/internal/simrt/")
 	}
 	return false
+}
+
+// crashSignature: "<panic line> in <innermost frame of the code under test> <- <its caller>"
+// (simulator drop-in frames skipped, arguments and the module path stripped).
+func crashSignature(c string) string {
+	msg := firstLine(c)
+	if msg == "" {
+		msg = "panic in code under test"
+	}
+	var frames []string
+	lines := strings.Split(c, "\n")
+	start := 0
+	for i, l := range lines {
+		if strings.HasPrefix(l, "goroutine ") && strings.Contains(l, "[running") {
+			start = i + 1
+			break
+		}
+	}
+	for _, l := range lines[start:] {
+		if l == "" && len(frames) > 0 {
+			break
+		}
+		if strings.HasPrefix(l, "\t") || strings.HasPrefix(l, " ") || !strings.Contains(l, "(") {
+			continue
+		}
+		if strings.Contains(l, "/internal/simrt/") || strings.HasPrefix(l, "panic(") || strings.HasPrefix(l, "runtime.") || strings.HasPrefix(l, "created by ") {
+			continue
+		}
+		if j := strings.LastIndex(l, "("); j > 0 {
+			l = l[:j]
+		}
+		l = strings.TrimPrefix(l, "github.com/centrifugal/centrifuge")
+		frames = append(frames, strings.TrimPrefix(l, "/"))
+		if len(frames) == 2 {
+			break
+		}
+	}
+	if len(frames) == 0 {
+		return msg
+	}
+	return msg + " in " + strings.Join(frames, " <- ")
+}
+
+// sigMatches: a recorded signature may start and/or end with '*'.
+func sigMatches(pat, sig string) bool {
+	pre, suf := strings.HasPrefix(pat, "*"), strings.HasSuffix(pat, "*") && len(pat) > 1
+	core := strings.TrimSuffix(strings.TrimPrefix(pat, "*"), "*")
+	switch {
+	case pre && suf:
+		return strings.Contains(sig, core)
+	case pre:
+		return strings.HasSuffix(sig, core)
+	case suf:
+		return strings.HasPrefix(sig, core)
+	}
+	return pat == sig
 }
 
 func firstLine(s string) string {
